@@ -16,6 +16,7 @@ Section Entry.
     '(v, s1) <- dec R c t s ;;
     match rd_exact R 1 s1 with
     | Err UnexpectedEof _ => Ok (v, s1)
+    | Panic w => Panic w                        (* a reader that panics in the probe: the panic is not caught *)
     | _ => Err InvalidData MNotAllBytesRead
     end.
   Definition from_reader := try_from_reader.
